@@ -147,20 +147,26 @@ class Flow:
                 if p["kind"] == "store" and not p["loops"] and p["op"] == "=" and p["lv"][0] == "fld" and p["lv"][1] == this0 and p["val"][0] == "sym":
                     p2f.setdefault(p["val"], p["lv"])
             for p in ps:
-                if p["kind"] != "store" or len(p["loops"]) != 1 or p["op"] != "=" or p["lv"][0] != "idx":
+                if p["kind"] != "store" or not p["loops"] or p["op"] != "=" or p["lv"][0] != "idx" or p["guards"] and False:
                     continue
                 A = p["lv"][1]
-                pv = p["loops"][0]["var"]
-                if A[0] != "fld" or A[1] != this0 or p["lv"][2] != pv:
+                if A[0] != "fld" or A[1] != this0:
                     continue
-                val = sym.subst(p["val"], p2f)
+                # A[e(vars)] = &B[f(vars)] inside one or more loops (index computed or carried by walking pointers): a table
+                # with stride c when f == c * e identically (trip counts of the constructor's loops are its dimensions, >= 0)
+                e_ = sym.trip_counts_nonneg(sym.subst(p["lv"][2], p2f))
+                val = sym.trip_counts_nonneg(sym.subst(p["val"], p2f))
                 base, off = bounds.split_base_offset(val)
                 if base is None or base[0] != "fld" or base[1] != this0:
                     continue
-                lin = sym.linear_in(off, pv)
-                if lin is None or lin[1] != ZERO:
+                pv = p["loops"][-1]["var"]
+                le, lf = sym.linear_in(e_, pv), sym.linear_in(off, pv)
+                if le is None or lf is None or le[0] != I(1):
                     continue
-                tables[(rname, A[2])] = (base[2], sym.subst(lin[0], p2f))
+                c = lf[0]
+                if sym.sub(off, sym.mul(c, e_)) != ZERO:
+                    continue
+                tables[(rname, A[2])] = (base[2], sym.subst(c, p2f))
         return tables
 
     def resolve_tables(self, t, roots):
